@@ -12,6 +12,7 @@ import PV.Proofs.WalkCallback
 import PV.Generated.Traversal
 import PV.Proofs.DispatchTable
 import PV.Generated.Dispatch
+import PV.Proofs.ForeignTable
 /-
   C04 — mapper dispatch (`Mapper.__call__`, `rec_fallback`, `CachedMapper.__call__`, `map_foreign`),
   handler names of expression dataclasses, and the contracts of the stock traversals
@@ -811,6 +812,107 @@ example : dRun c04DispatchSource.call [""] (.expr [some ""]) = .ret (.handler ""
   rw [dispatch_call_eq_table_current, dispatch_call_eq_table_current]; decide
 example : dRun c04DispatchSource.call [] (.foreign .tuple) = .ret (.foreign "map_tuple") :=
   (dispatch_foreign_eq_table_current [] .tuple).1
+end examples
+
+/-! ## 9. `Mapper.map_foreign` of the current source and the run-time registry of number classes
+
+`Generated.c04ForeignSource` is `Mapper.map_foreign` of the tree under test read test by test, each
+test with WHAT IT REFERS TO: `.constLive` = `pymbolic.primitives.VALID_CONSTANT_CLASSES` looked up
+through the module attribute when the mapper is called — the global that
+`register_constant_class` / `unregister_constant_class` rebind (also read, statement by statement)
+— as opposed to `.constCaptured`, a value computed from it when `pymbolic.mapper` was imported.
+`fRun` runs the chain for a registry at call time (`live`) and one at import time (`captured`). -/
+
+/-- **The source of `map_foreign` and of the registry functions is the one the model was written
+against**, test for test. -/
+theorem foreign_source_current : c04ForeignSource = foreignSourceLit := rfl
+
+/-- **`map_foreign` of the current source IS `dispatchForeign`, on the kind the object has under
+the registry AT CALL TIME**: numbers (instances of a class registered right now) to
+`map_constant`, else arrays, lists, tuples to their handlers, anything else rejected — for every
+registry, every object, and whatever the registry was when the module was imported. -/
+theorem foreign_chain_eq_table_current (live captured : Registry) (o : FObj) :
+    fRun c04ForeignSource.chain live captured o = dispatchForeign (o.kind live) := by
+  rw [foreign_source_current]; exact fRun_lit live captured o
+
+/-- **Routing follows a registration**: right after `register_constant_class(c)` every instance
+of `c` goes to `map_constant`, whatever was registered before. -/
+theorem foreign_follows_registration_current (reg captured : Registry) (c : String) (o : FObj)
+    (h : c ∈ o.classes) :
+    fRun c04ForeignSource.chain (reg.register c) captured o = .foreign "map_constant" := by
+  have hc : o.isConst (reg.register c) = true := by
+    rw [isConst_register]; simp [List.contains_eq_mem, h]
+  rw [foreign_chain_eq_table_current]
+  simp [FObj.kind, hc, dispatchForeign]
+
+/-- **Routing follows an unregistration**: an object that is no instance of a class still
+registered is routed by its shape alone, and rejected when it is no array, list or tuple. -/
+theorem foreign_follows_unregistration_current (reg captured : Registry) (c : String) (o : FObj)
+    (h : o.isConst (reg.unregister c) = false) :
+    fRun c04ForeignSource.chain (reg.unregister c) captured o = dispatchForeign (o.kind []) ∧
+    (o.isArray = false → o.isList = false → o.isTuple = false →
+      fRun c04ForeignSource.chain (reg.unregister c) captured o = .invalidForeign) := by
+  rw [foreign_chain_eq_table_current]
+  have h0 : o.isConst [] = false := by simp [FObj.isConst]
+  constructor
+  · simp [FObj.kind, h, h0]
+  · intro ha hl ht; simp [FObj.kind, h, ha, hl, ht, dispatchForeign]
+
+/-- … in particular an instance of exactly the class `c`, registered once: rejected again. -/
+theorem foreign_unregistered_rejected_current (reg captured : Registry) (c : String)
+    (hn : reg.Nodup) :
+    fRun c04ForeignSource.chain (reg.unregister c) captured { classes := [c] } = .invalidForeign := by
+  have h : ({ classes := [c] } : FObj).isConst (reg.unregister c) = false := by
+    simp only [FObj.isConst, List.any_cons, List.any_nil, Bool.or_false]
+    exact unregister_removes reg c hn
+  exact (foreign_follows_unregistration_current reg captured c _ h).2 rfl rfl rfl
+
+/-- **Histories**: registrations, unregistrations and dispatches in any order — every dispatch of
+the current source goes where the object's kind under the registry OF THAT MOMENT says
+(`fHistorySpec`), independently of the registry at import time. -/
+theorem foreign_history_current (captured live : Registry) (steps : List FStep) :
+    fHistory c04ForeignSource.chain captured live steps = fHistorySpec live steps := by
+  rw [foreign_source_current]; exact fHistory_lit captured steps live
+
+/-- the registry functions of `pymbolic.primitives` rebind ONE module global — the one the first
+test of the chain reads — `register` by appending to a new tuple, `unregister` by removing the
+first occurrence, `is_constant` tests against the same global; `map_foreign` takes
+`(self, expr, *args, **kwargs)`, rejects with `ValueError`, and no stock mapper replaces it
+(`CompileMapper.map_foreign` re-routes to `Mapper.map_foreign` with its own argument). -/
+theorem foreign_registry_fns_current :
+    c04ForeignSource.sig = true ∧ c04ForeignSource.elseRaises = "ValueError" ∧
+    c04ForeignSource.registryGlobal = "VALID_CONSTANT_CLASSES" ∧
+    c04ForeignSource.register = .appendOne c04ForeignSource.registryGlobal ∧
+    c04ForeignSource.unregister = .removeFirst c04ForeignSource.registryGlobal ∧
+    c04ForeignSource.isConstant = .isinstanceOf c04ForeignSource.registryGlobal ∧
+    c04ForeignSource.overriders = ["CompileMapper", "Mapper"] := by decide
+
+/-- a chain whose first test refers to a value captured at import time is NOT the current one: a
+class registered later is rejected, a class unregistered later is still accepted — while the
+chain of the current source follows the registry both times. -/
+theorem foreign_captured_table_cex :
+    let captured : List (FTest × String) :=
+      [(.constCaptured, "map_constant"), (.numpyArray, "map_numpy_array"),
+       (.builtinList, "map_list"), (.builtinTuple, "map_tuple")]
+    let frac : FObj := { classes := ["Fraction", "numbers.Rational"] }
+    let flt : FObj := { classes := ["float"] }
+    fRun captured (baseRegistry.register "Fraction") baseRegistry frac = .invalidForeign ∧
+    fRun c04ForeignSource.chain (baseRegistry.register "Fraction") baseRegistry frac
+      = .foreign "map_constant" ∧
+    fRun captured (baseRegistry.unregister "float") baseRegistry flt = .foreign "map_constant" ∧
+    fRun c04ForeignSource.chain (baseRegistry.unregister "float") baseRegistry flt
+      = .invalidForeign := by
+  decide
+
+section examples
+example : fHistory c04ForeignSource.chain baseRegistry baseRegistry
+    [.call { classes := ["Fraction"] }, .op (.register "Fraction"), .call { classes := ["Fraction"] },
+     .op (.register "Decimal"), .call { classes := ["Decimal"] }, .op (.unregister "Fraction"),
+     .call { classes := ["Fraction"] }, .call { classes := [], isTuple := true }]
+    = [.invalidForeign, .foreign "map_constant", .foreign "map_constant", .invalidForeign,
+       .foreign "map_tuple"] := by
+  rw [foreign_history_current]; decide
+example : ({ classes := ["int", "numbers.Rational"] } : FObj).kind baseRegistry = .number := by decide
 end examples
 
 end PV.C04
